@@ -1,7 +1,7 @@
 (* Entry points of the model, addressed by name over the line protocol. *)
 From Coq Require Import String.
 From Coq Require Import NArith ZArith List Bool.
-From DI Require Import Result PyStr Val Codec Version Dpkg Deps Package Contents Deb822 Email Debcon.
+From DI Require Import Result PyStr Val Codec Version Dpkg Deps Package Contents Deb822 Email Debcon Copyright.
 Import ListNotations.
 Open Scope N_scope.
 
@@ -243,6 +243,45 @@ Definition dispatch_debcon (fn : str) (args : list val) : option val :=
   | _ => None
   end.
 
+(* ---------- copyright ---------- *)
+
+Definition VFval (v : fval) : val :=
+  match v with
+  | VSingle s => VStr s
+  | VLines vs => VStrs vs
+  | VText t => VStr t
+  | VCopyright sts => VList (map (fun s => VPair (VStr (fst s)) (VStr (snd s))) sts)
+  | VLicense n t => VPair (VStr n) (VStr t)
+  end.
+
+Definition VRanges2 (d : pydict (N * N)) : val :=
+  VList (map (fun kv => VPair (VStr (fst kv)) (VPair (VN (fst (snd kv))) (VN (snd (snd kv))))) d).
+
+Definition VPara (p : para) : val :=
+  VList [VStr (ptype_name (p_type p));
+         VDict (para_to_dict p);
+         VRanges2 (p_lines p);
+         VStr (para_dumps p);
+         VList (map (fun kv => VPair (VStr (fst kv)) (VFval (snd kv))) (p_fields p));
+         VDict (p_extra p);
+         VDict (para_to_dict (para_from_dict (p_type p) (para_to_dict p)));
+         VPair (VN (fst (first_last p))) (VN (snd (first_last p)))].
+
+Definition VDoc (ps : list para) : val :=
+  VList [VList (map VPara ps); VStr (doc_dumps ps); VBool (doc_is_valid false ps); VBool (doc_is_valid true ps)].
+
+Definition dispatch_copyright (fn : str) (args : list val) : option val :=
+  match args with
+  | [VStr a] =>
+      if fn_is "copyright_from_text" fn then Some (VRes VDoc (from_text a))
+      else if fn_is "normalize_control_field_name" fn then Some (VStr (normalize_control_field_name a))
+      else if fn_is "is_year_range" fn then Some (VBool (is_year_range a))
+      else if fn_is "statement" fn then
+        Some (let s := statement_from_value a in VList [VStr (fst s); VStr (snd s); VStr (statement_dumps s)])
+      else None
+  | _ => None
+  end.
+
 Definition dispatch_all (fn : str) (args : list val) : val :=
   match dispatch_version fn args with
   | Some v => v
@@ -258,7 +297,11 @@ Definition dispatch_all (fn : str) (args : list val) : val :=
               | None =>
                   match dispatch_debcon fn args with
                   | Some v => v
-                  | None => dispatch fn args
+                  | None =>
+                      match dispatch_copyright fn args with
+                      | Some v => v
+                      | None => dispatch fn args
+                      end
                   end
               end
           end
